@@ -79,6 +79,7 @@ def _case(draw, tier):
         topo[j]["wait_for"] = ["sig_v"]
     depth = draw(st.sampled_from([0, 1, 1, 2, 2, 3]))
     renamed = False
+    ren_all: set = set()  # outputs that a sibling wrapper exposes under another name (gates below do not take those)
     siblings = prob(draw, 0.2)
     if siblings:
         # 2-3 SIBLING containers; some take their inputs under fresh inner names (the wrapper's inputs are renamed back), so
@@ -92,6 +93,22 @@ def _case(draw, tier):
                     w["graph"]["nodes"] = [{**x, "params": [m.get(q, q) for q in x["params"]]} for x in w["graph"]["nodes"]]
                     # the wrapper may already have been looked at / used in a graph before it is renamed
                     w["renames"] = ([{"kind": "warm"}] if draw(st.booleans()) else []) + [{"kind": "inputs", "map": {vi: v for v, vi in m.items()}}]
+        # ... and some expose an OUTPUT under a fresh outer name (with_outputs), also one that is consumed inside as well; only plain
+        # outer nodes take it (under the new name)
+        for w in outer:
+            if w["k"] != "graph" or not draw(st.booleans()):
+                continue
+            others_in = {q for w2 in outer if w2["k"] == "graph" and w2 is not w for q in w2["flat_inputs"]}
+            waited = {q for x in topo for q in x.get("wait_for", [])}
+            cand = [o for o in w["flat_outputs"] if o not in others_in and o not in waited and any(o in x["params"] for x in outer if x["k"] != "graph")]
+            ren = {o: "zq" + o[1:] for o in cand if draw(st.booleans())}  # (neither name contains the other)
+            if ren:
+                ren_all |= set(ren)
+                w["renames"] = list(w.get("renames", [])) + [{"kind": "outputs", "map": dict(ren)}]
+                w["flat_outputs"] = [ren.get(o, o) for o in w["flat_outputs"]]
+                for x in outer:
+                    if x["k"] != "graph":
+                        x["params"] = [ren.get(q, q) for q in x["params"]]
         nodes = outer
         depth = 1 if any(w["k"] == "graph" for w in outer) else 0
     elif depth:
@@ -122,7 +139,7 @@ def _case(draw, tier):
     gates = []
     top_names = [n["name"] for n in nodes]
     if prob(draw, 0.4):
-        avail = sorted({p for n in topo for p in n["params"]} | {o for n in topo for o in n["outs"]})
+        avail = sorted(({p for n in topo for p in n["params"]} | {o for n in topo for o in n["outs"]}) - ren_all)
         for gi in range(draw(st.integers(1, 2))):
             params = list(dict.fromkeys(draw(st.lists(st.sampled_from(avail), max_size=2)))) if avail else []
             t = draw(st.sampled_from(top_names))
@@ -552,10 +569,15 @@ def _check_mermaid(tag, src, depth, sep, tree, deps, input_consumers, value_alia
         if sep:
             return
     known = set(all_ids)
+    ghost = set()
     for u, w, _ in edges:
         for end in (u, w):
             if end not in known:
-                raise Violation("c20.mermaid_endpoint_undeclared", f"[{tag}] Mermaid edge {u} --> {w} ends at undeclared {end!r}")
+                # a DATA node spelled with the OUTER name of an output that a wrapper renamed (the node that exists carries the inner name)
+                ren_out = any(end == _san(f"data_{pth}_{outer}") for pth, o in PAIRS[0] for outer in value_alias.get(o, ()) if outer != o)
+                flag(Violation("c20.mermaid_endpoint_undeclared", f"[{tag}] Mermaid edge {u} --> {w} ends at undeclared {end!r}", data_node_under_outer_name=ren_out))
+                ghost.add(end)
+    edges = [e_ for e_ in edges if e_[0] not in ghost and e_[1] not in ghost]
     # expected visibility at this depth: a node is visible iff all its ancestors are expanded (depth of ancestor < depth)
     def level(pid):
         return pid.count("/")
@@ -775,6 +797,8 @@ def check_case(case, ev):
         labels.add("sibling_containers")
         if any(n.get("renames") for n in nodes if n["k"] == "graph"):
             labels.add("sibling_container_with_fresh_inner_input_names")
+        if any(st_.get("kind") == "outputs" for n in nodes if n["k"] == "graph" for st_ in n.get("renames", [])):
+            labels.add("sibling_container_output_exposed_under_a_fresh_name")
     # ---- flat graph
     fg = g.to_flat_graph()
     got_tree = {n: d.get("parent") for n, d in fg.nodes(data=True)}
@@ -803,14 +827,23 @@ def check_case(case, ev):
         raise Violation("c20.too_few_states", f"{len(containers)} sibling containers have {2 ** len(containers)} expansion states x 2 output modes, but the diagram data holds {len(nbs)} states", many=True)
     if case.get("many"):
         labels.add("nine_sibling_containers_all_states")
+    outren = any(st_.get("kind") == "outputs" for n in nodes if n["k"] == "graph" and not case.get("renamed") for st_ in n.get("renames", []))
     for key in sorted(nbs):
         sep = key.endswith("sep:1")
+        if outren and sep:
+            # finding F23 (producer side): with a wrapper output exposed under another name the separate-outputs diagrams attach
+            # edges to DATA nodes spelled with the outer name; those states are left to the finding, merged mode is checked in full
+            ev.count("states_left_to_F23:renamed_output_in_separate_outputs_mode")
+            continue
         _check_state(f"state {key}", nbs[key], ebs[key], tree, deps, input_consumers, sep, value_alias, stats)
         stats["states"] += 1
     # ---- Mermaid
     maxd = max((p.count("/") for p in tree), default=0)
     for d in range(0, min(3, maxd + 1) + 1):
         for sepm in (False, True):
+            if outren and sepm:
+                ev.count("states_left_to_F23:renamed_output_in_separate_outputs_mode")
+                continue
             src = g.to_mermaid(depth=d, separate_outputs=sepm).source
             _check_mermaid(f"mermaid depth={d} sep={int(sepm)}", src, d, sepm, tree, deps, input_consumers, value_alias, stats)
             stats["states"] += 1
